@@ -131,7 +131,7 @@ Qed.
 (* ---------- persistence of one row ---------- *)
 Variables (id : N) (c : orow).
 Hypothesis Hid : (id < next_id s0)%N.
-Hypothesis Hexcl : forall r0, may_rewrite b k dv inplace s0 r0 -> o_id r0 = id -> core r0 = c -> False.
+Hypothesis Hexcl : forall r0, on_key b k r0 = true -> may_rewrite b k dv inplace s0 r0 -> o_id r0 = id -> core r0 = c -> False.
 
 Definition HasRow (s : mstate) : Prop := exists x, In x (objs s) /\ o_id x = id /\ core x = c.
 
@@ -154,9 +154,9 @@ Qed.
 Lemma Tr_pers s : Tr s -> HasRow s0 -> HasRow s /\ obj_parts s id = obj_parts s0 id.
 Proof.
   intros T R0.
-  assert (NE : forall sj r0, Tr sj -> HasRow sj -> In r0 (objs sj) ->
+  assert (NE : forall sj r0, Tr sj -> HasRow sj -> In r0 (objs sj) -> on_key b k r0 = true ->
                  may_rewrite b k dv inplace s0 r0 -> o_id r0 <> id).
-  { intros sj r0 Tj Rj Hr M E. apply (Hexcl r0 M E).
+  { intros sj r0 Tj Rj Hr Kr M E. apply (Hexcl r0 Kr M E).
     apply (hasrow_unique sj); try assumption. eapply Tr_ids; eassumption. }
   induction T as [|s s' T [IH IHp] [E1 E2 _ _]|s sj r0 l T [IH IHp] Tj [IHj _] Hr Kr
                   |s sj r0 r T [IH IHp] Tj [IHj _] Hr Kr M Eid Kn
@@ -169,22 +169,22 @@ Proof.
     unfold set_latest. apply hasrow_update; [exact IH|]. cbn [with_row o_id]. intros E. rewrite core_with_row.
     apply (hasrow_unique sj); try assumption. eapply Tr_ids; eassumption.
   - split; [|unfold obj_parts; rewrite update_row_parts; exact IHp].
-    apply hasrow_update; [exact IH|]. intros E. exfalso. apply (NE sj r0 Tj IHj Hr M). congruence.
+    apply hasrow_update; [exact IH|]. intros E. exfalso. apply (NE sj r0 Tj IHj Hr Kr M). congruence.
   - split; [|unfold obj_parts; rewrite insert_row_parts; exact IHp].
     destruct IH as [x [Hx Ex]]. exists x. split; [|exact Ex]. rewrite insert_row_objs. apply in_or_app. left. exact Hx.
   - split; [|unfold obj_parts; rewrite delete_row_parts; exact IHp].
     destruct IH as [x [Hx [Ex Cx]]]. exists x. split; [|tauto]. rewrite delete_row_objs. apply filter_In.
     split; [exact Hx|]. apply negb_true_iff. apply N.eqb_neq. rewrite Ex. intros E.
-    apply (NE sj r0 Tj IHj Hr M). congruence.
+    apply (NE sj r0 Tj IHj Hr Kr M). congruence.
   - split; [unfold HasRow; rewrite save_part_rows_objs; exact IH|].
     rewrite <- IHp. unfold obj_parts. rewrite save_part_rows_parts. apply filter_app_none.
-    intros p Hp. apply new_prows_obj in Hp. apply N.eqb_neq. rewrite Hp. apply (NE sj r0 Tj IHj Hr M).
+    intros p Hp. apply new_prows_obj in Hp. apply N.eqb_neq. rewrite Hp. apply (NE sj r0 Tj IHj Hr Kr M).
   - split; [unfold HasRow; rewrite save_part_rows_objs; exact IH|].
     rewrite <- IHp. unfold obj_parts. rewrite save_part_rows_parts. apply filter_app_none.
     intros p Hp. apply new_prows_obj in Hp. apply N.eqb_neq. rewrite Hp. lia.
   - split; [unfold HasRow; rewrite remove_part_rows_objs; exact IH|].
     rewrite <- IHp. unfold obj_parts. rewrite remove_part_rows_parts. apply filter_filter_same.
     intros p _ Hp. apply N.eqb_eq in Hp. apply negb_true_iff. destruct (sel p) eqn:S; [|reflexivity]. exfalso.
-    apply Hsel in S. apply (NE sj r0 Tj IHj Hr M). congruence.
+    apply Hsel in S. apply (NE sj r0 Tj IHj Hr Kr M). congruence.
 Qed.
 End Frame.
